@@ -293,12 +293,22 @@ impl<F: Write + Seek> MiniAllocator<F> {
             self.directory.root_dir_entry().start_sector;
         let mini_stream_len = self.directory.root_dir_entry().stream_len;
         debug_assert_eq!(mini_stream_len % consts::MINI_SECTOR_LEN as u64, 0);
+        let new_mini_stream_len =
+            match mini_stream_len.checked_add(consts::MINI_SECTOR_LEN as u64) {
+                Some(len) => len,
+                None => malformed!("root stream len is {}", mini_stream_len),
+            };
 
         // If the mini stream doesn't have room for new mini sector, add
         // another regular sector to its chain.
         let new_start_sector =
             if mini_stream_start_sector == consts::END_OF_CHAIN {
-                debug_assert_eq!(mini_stream_len, 0);
+                if mini_stream_len != 0 {
+                    malformed!(
+                        "root stream len is {}, but it has no sectors",
+                        mini_stream_len
+                    );
+                }
                 self.directory.begin_chain(SectorInit::Zero)?
             } else {
                 // The mini stream's chain is never shrunk when mini sectors
@@ -307,7 +317,7 @@ impl<F: Write + Seek> MiniAllocator<F> {
                     .directory
                     .open_chain(mini_stream_start_sector, SectorInit::Zero)?
                     .len();
-                if mini_stream_len + consts::MINI_SECTOR_LEN as u64 > capacity {
+                if new_mini_stream_len > capacity {
                     self.directory.extend_chain(
                         mini_stream_start_sector,
                         SectorInit::Zero,
@@ -319,14 +329,22 @@ impl<F: Write + Seek> MiniAllocator<F> {
         // Update length of mini stream in root directory entry.
         self.directory.with_root_dir_entry_mut(|dir_entry| {
             dir_entry.start_sector = new_start_sector;
-            dir_entry.stream_len += consts::MINI_SECTOR_LEN as u64;
+            dir_entry.stream_len = new_mini_stream_len;
         })
     }
 
     /// Deallocates the specified mini sector.
     fn free_mini_sector(&mut self, mini_sector: u32) -> io::Result<()> {
-        if self.minifat[mini_sector as usize] == consts::FREE_SECTOR {
-            invalid_input!("sector {} freed twice", mini_sector);
+        match self.minifat.get(mini_sector as usize) {
+            Some(&consts::FREE_SECTOR) => {
+                invalid_input!("sector {} freed twice", mini_sector);
+            }
+            Some(_) => {}
+            None => malformed!(
+                "mini sector {} is out of range (MiniFAT has {} entries)",
+                mini_sector,
+                self.minifat.len()
+            ),
         }
         self.set_minifat(mini_sector, consts::FREE_SECTOR)?;
         self.free_mini_sectors.push(mini_sector);
@@ -355,7 +373,7 @@ impl<F: Write + Seek> MiniAllocator<F> {
     ) -> io::Result<()> {
         let mut mini_sector = start_mini_sector;
         while mini_sector != consts::END_OF_CHAIN {
-            let next = self.minifat[mini_sector as usize];
+            let next = self.next_mini_sector(mini_sector)?;
             self.free_mini_sector(mini_sector)?;
             mini_sector = next;
         }
@@ -368,7 +386,7 @@ impl<F: Write + Seek> MiniAllocator<F> {
         &mut self,
         mini_sector: u32,
     ) -> io::Result<()> {
-        let next = self.minifat[mini_sector as usize];
+        let next = self.next_mini_sector(mini_sector)?;
         self.set_minifat(mini_sector, consts::END_OF_CHAIN)?;
         self.free_mini_chain(next)?;
         Ok(())
